@@ -184,6 +184,11 @@ type Engine struct {
 	Impure func(callee *types.Func) bool
 	// TrackExpr names an expression node (slice, index, division) as an effect.
 	TrackExpr func(x ast.Expr) string
+	// Forward: a value stored into a field is what a later read of the same
+	// field (same version, i.e. no intervening write or modifying call) yields.
+	Forward bool
+	// ElemKeys: the value variable of `range X` is known as key(X)+"[*]".
+	ElemKeys bool
 
 	paths    []*Path
 	err      error
@@ -204,6 +209,7 @@ type env struct {
 	inst    map[*ast.CallExpr]int
 	instN   int
 	fresh   int
+	fbind   map[string]string // field lvalue key (with version) -> key of the value stored
 }
 
 func (v *env) clone() *env {
@@ -212,6 +218,12 @@ func (v *env) clone() *env {
 		seen: make(map[string]int, len(v.seen)), fresh: v.fresh, inst: make(map[*ast.CallExpr]int, len(v.inst)), instN: v.instN}
 	for k, x := range v.inst {
 		n.inst[k] = x
+	}
+	if v.fbind != nil {
+		n.fbind = make(map[string]string, len(v.fbind))
+		for k, x := range v.fbind {
+			n.fbind[k] = x
+		}
 	}
 	for k, x := range v.bind {
 		n.bind[k] = x
@@ -596,6 +608,14 @@ func (e *Engine) store(v *env, lhs ast.Expr, val string, pos token.Pos) {
 	}
 	if f := e.fieldOf(lhs); f != nil {
 		v.version[f]++
+		if e.Forward {
+			if _, isSel := ast.Unparen(lhs).(*ast.SelectorExpr); isSel {
+				if v.fbind == nil {
+					v.fbind = map[string]string{}
+				}
+				v.fbind[e.key(v, lhs)] = val
+			}
+		}
 	}
 	// stores through an index/deref of a local invalidate nothing we track by name
 }
@@ -927,6 +947,11 @@ func (e *Engine) loop(v *env, s ast.Stmt, body *ast.BlockStmt, rs *ast.RangeStmt
 		}
 		if rs.Value != nil {
 			e.havocLoc(v, rs.Value)
+			if e.ElemKeys {
+				if obj := e.localObj(rs.Value); obj != nil {
+					v.bind[obj] = e.key(v, rs.X) + "[*]"
+				}
+			}
 		}
 	}
 	v.events = append(v.events, Event{Kind: "loop", Name: name, Pos: s.Pos(), Node: s})
@@ -1340,9 +1365,16 @@ func (e *Engine) key(v *env, x ast.Expr) string {
 			base := e.key(v, x.X)
 			if sel.Kind() == types.FieldVal {
 				f := sel.Obj().(*types.Var)
+				k := base + "." + x.Sel.Name
 				if n := v.version[f]; n > 0 {
-					return fmt.Sprintf("%s.%s#%d", base, x.Sel.Name, n)
+					k = fmt.Sprintf("%s.%s#%d", base, x.Sel.Name, n)
 				}
+				if e.Forward && v.fbind != nil {
+					if b, ok := v.fbind[k]; ok {
+						return b
+					}
+				}
+				return k
 			}
 			return base + "." + x.Sel.Name
 		}
